@@ -6,6 +6,7 @@ import (
 	"fmt"
 	"time"
 
+	header "github.com/celestiaorg/go-header"
 	"github.com/celestiaorg/go-header/store"
 	hsync "github.com/celestiaorg/go-header/sync"
 
@@ -111,21 +112,29 @@ func runSyncer(s *core.Sim, tier string, liveness bool) RunInfo {
 		})
 	}
 	callHead := func() *core.Task {
-		hist = append(hist, "Head()")
+		// one caller asking once, or again the moment it has its answer (no virtual time in
+		// between: whatever the first request left behind is as fresh as it gets)
+		times := 1 + s.Tape.Biased("head-again", 3, 3)
+		hist = append(hist, fmt.Sprintf("Head() x%d", times))
+		if times > 1 {
+			s.Probe("head-asked-again-at-once")
+		}
 		return s.Go("head-call", func() {
 			c, cancel := context.WithTimeout(ctx, 5*time.Minute)
 			defer cancel()
-			h, err := w.Sy.Head(c)
-			if err != nil {
-				return
+			for k := 0; k < times; k++ {
+				h, err := w.Sy.Head(c)
+				if err != nil {
+					continue
+				}
+				if k, isBad := bad[string(h.Hash())]; isBad {
+					s.Violate("refused-header-became-head", map[string]string{"kind": k}, "Syncer.Head() returned the %s header %v", k, h)
+				}
+				if w.Ch.Is(h) && h.Height() > accepted {
+					accepted = h.Height()
+				}
+				headsSeen = append(headsSeen, h.Height())
 			}
-			if k, isBad := bad[string(h.Hash())]; isBad {
-				s.Violate("refused-header-became-head", map[string]string{"kind": k}, "Syncer.Head() returned the %s header %v", k, h)
-			}
-			if w.Ch.Is(h) && h.Height() > accepted {
-				accepted = h.Height()
-			}
-			headsSeen = append(headsSeen, h.Height())
 		})
 	}
 	subjective := func() uint64 { // a height near where the syncer is
@@ -190,6 +199,19 @@ func runSyncer(s *core.Sim, tier string, liveness bool) RunInfo {
 		faultsLeft--
 		switch frng.Draw("range-fault", 3) {
 		case 0:
+			// whatever a getter may fail with while the Syncer itself keeps running: its own
+			// request being torn down (cancelled stream / peer session), a timeout, nothing found
+			switch frng.Draw("range-error-kind", 4) {
+			case 1:
+				s.Fault("getter-range-error-canceled")
+				return 0, fmt.Errorf("getter: session closed: %w", context.Canceled)
+			case 2:
+				s.Fault("getter-range-error-deadline")
+				return 0, fmt.Errorf("getter: request timed out: %w", context.DeadlineExceeded)
+			case 3:
+				s.Fault("getter-range-error-notfound")
+				return 0, fmt.Errorf("getter: %w", header.ErrNotFound)
+			}
 			return 0, errors.New("getter: injected failure")
 		case 1:
 			return 1 + frng.Draw("prefix", 5), nil
